@@ -917,6 +917,22 @@ func (a *An) posOf(instr ssa.Instruction, operands ...ssa.Value) token.Pos {
 	return instr.Parent().Pos()
 }
 
+// objCells: the cells behind an address that is loaded / stored as a value of type t.  A whole module struct copied
+// through a plain pointer (`x := *p`, `f(*p)`, a value-receiver method called on a pointer or on an interface
+// holding a pointer - the compiler's wrapper does `(*p).M()`) is named like its fields are everywhere else, by
+// the struct type (every leaf field incl. mutex words is then read / written at that site); everything else by
+// the traced cell.
+func (a *An) objCells(addr ssa.Value, t types.Type) []string {
+	if _, named := t.(*types.Named); named && isModuleStruct(t) {
+		switch addr.(type) {
+		case *ssa.FieldAddr, *ssa.IndexAddr, *ssa.Global, *ssa.Alloc:
+		default:
+			return a.structCells(addr, newCtx())
+		}
+	}
+	return a.cellsOf(addr, newCtx())
+}
+
 func (a *An) analyze(fn *ssa.Function) *fnInfo {
 	if inf, ok := a.infos[fn]; ok {
 		return inf
@@ -1008,11 +1024,11 @@ func (a *An) analyze(fn *ssa.Function) *fnInfo {
 			switch x := instr.(type) {
 			case *ssa.UnOp:
 				if x.Op == token.MUL {
-					cells := expand(a.cellsOf(x.X, newCtx()), x.Type())
+					cells := expand(a.objCells(x.X, x.Type()), x.Type())
 					add(cells, "R", a.posOf(instr, x.X), al, chainBase(x.X), false)
 				}
 			case *ssa.Store:
-				cells := expand(a.cellsOf(x.Addr, newCtx()), x.Val.Type())
+				cells := expand(a.objCells(x.Addr, x.Val.Type()), x.Val.Type())
 				add(cells, "W", a.posOf(instr, x.Addr), al, chainBase(x.Addr), false)
 			case *ssa.MapUpdate:
 				add(a.contents(x.Map, newCtx()), "W", a.posOf(instr, x.Map), al, nil, false)
